@@ -37,17 +37,17 @@ class Roles(object):
         if self.dev_cls is None:
             raise AnalysisError("ROLE", "%s: no class creates the I/O manager (device class not found)" % mod.name)
         io = self.io_cls
-        self.read_exact = self._one([f for f in io.methods.values() if self._calls_attr(f, "bulk_read")], "function calling bulk_read")
+        self.read_exact = self._one([f for f in io.methods.values() if self._calls_attr(f, "bulk_read")], "function calling bulk_read", "_read_bytes_from_device")
         self.write_funcs = [f for f in mod.all_funcs if self._calls_attr(f, "bulk_write")]
-        self.packet_reader = self._one([f for f in io.methods.values() if self._calls_name(f, "unpack")], "packet reader (calls unpack)")
+        self.packet_reader = self._one([f for f in io.methods.values() if self._calls_name(f, "unpack")], "packet reader (calls unpack)", "_read_packet_from_device")
         pumps = [f for f in io.methods.values() if self._calls(f, self.packet_reader) and self._calls_attr(f, "put")]
-        self.pump = self._one(pumps, "packet pump (reads packets and parks foreign ones)")
+        self.pump = self._one(pumps, "packet pump (reads packets and parks foreign ones)", "read")
         crs = [f for f in io.methods.values() if self._calls(f, self.packet_reader) and f is not self.pump]
-        self.connect_reader = self._one(crs, "connect-time expected-packet reader")
+        self.connect_reader = self._one(crs, "connect-time expected-packet reader", "_read_expected_packet_from_device")
         sp = [f for f in io.methods.values() if self._calls_attr(f, "pack")]
-        self.send_primitive = self._one(sp, "send primitive (calls msg.pack)")
+        self.send_primitive = self._one(sp, "send primitive (calls msg.pack)", "_send")
         sl = [f for f in io.methods.values() if self._calls(f, self.send_primitive) and f.name != "connect" and f is not self.send_primitive]
-        self.send_locked = self._one(sl, "locked send wrapper")
+        self.send_locked = self._one(sl, "locked send wrapper", "send")
         self.io_connect = self._named(io, "connect")
         self.io_close = self._named(io, "close")
         dev = self.dev_cls
@@ -64,7 +64,11 @@ class Roles(object):
             raise AnalysisError("ROLE", "anchor %s.%s not found" % (cls.qualname, name))
         return f
 
-    def _one(self, cands, what):
+    def _one(self, cands, what, prefer=None):
+        if len(cands) > 1 and prefer is not None:
+            named = [c for c in cands if c.name == prefer]
+            if len(named) == 1:
+                return named[0]      # extra candidates are reported by the who-may-call rules, not here
         if len(cands) != 1:
             raise AnalysisError("ROLE", "%s: expected exactly one %s, found %d (%s)" % (self.mod.name, what, len(cands), ", ".join(c.qualname for c in cands)))
         return cands[0]
